@@ -1,5 +1,6 @@
 import NbioVerif.Model.ReadPath
 import NbioVerif.Model.FdTable
+import NbioVerif.Model.UdpSess
 import NbioVerif.DrvCommon
 /-! gatedrv: runs the ReadPath model on the annotated ops of `hread` (see harness/cmd/hread/main.go) -/
 open ReadPath
@@ -43,6 +44,8 @@ structure DS where
   intrTotal : Nat := 0
   dead : Bool := false
   ft : FdTable.T := {}                 -- the side conns of the engine (fd table model)
+  us : Option UdpSess.St := none        -- timed UDP cases: sessions in logical time (ms)
+  remotes : List String := []
   wadded : Bool := false               -- the writing event was armed (write backlog): one EPOLL_CTL_MOD in LT mode
 
 
@@ -115,6 +118,9 @@ partial def loop (h : IO.FS.Stream) (d : DS) : IO Unit := do
   let ws := match ws with
     | ["C", a, b, c, d', e, f, g', t] => if f == "udp" && c == "def" && t.toNat! > 0 then ["C", a, b, c, d', e, f, g'] else ["bad"]
     | _ => ws
+  let udpto : Nat := match line.trimAscii.toString.splitOn " " with
+    | ["C", _, _, _, _, _, _, _, t] => t.toNat!
+    | _ => 0
   let say (d : DS) (what : String) : IO Unit := do
     let (l, d) := showSt d what
     IO.println l
@@ -130,7 +136,7 @@ partial def loop (h : IO.FS.Stream) (d : DS) : IO Unit := do
       else if (exec == "def" || exec == "park") && (typ == "tcp" || typ == "unix" || typ == "udp") && rbs.toNat! > 0 && cap.toNat! > 0 && np.toNat! > 0 then
         let g : Cfg := { mode := m, async := async == "1", rbs := rbs.toNat!, cap := cap.toNat!, udp := typ == "udp" }
         let s : St := if g.udp then init else { init with opens := [0] }
-        say { g, s, exec } "ok"
+        say { g, s, exec, us := if udpto > 0 then some { T := udpto } else none } "ok"
       else IO.println "bad-op"; loop h d
     | none => IO.println "bad-op"; loop h d
   | _ =>
@@ -147,9 +153,14 @@ partial def loop (h : IO.FS.Stream) (d : DS) : IO Unit := do
         | none => say d "nop"
     | ["dgram", a, p] =>
       match (if g.udp then parseAddr a else none) with
-      | some a =>
-        match step g s (.dgram a (Drv.payload p)) with
-        | some s => say { d with s } "dgram"
+      | some a' =>
+        -- timed cases: the datagram is read by the poll that follows at once (same logical instant)
+        let (rs, ix) := match d.remotes.idxOf? a with
+          | some i => (d.remotes, i)
+          | none => (d.remotes ++ [a], d.remotes.length)
+        let us := d.us.map fun u => if (Drv.payload p).isEmpty then u else UdpSess.step u (.dgram ix)
+        match step g s (.dgram a' (Drv.payload p)) with
+        | some s => say { d with s, us, remotes := rs } "dgram"
         | none => say d "nop"
       | none => IO.println "bad-op"; loop h d
     | ["eof"] =>
@@ -217,7 +228,13 @@ partial def loop (h : IO.FS.Stream) (d : DS) : IO Unit := do
           let (l, d) := showSt d "spin"
           IO.println l
           loop h { d with dead := true }
-    | ["wait", _, "ok"] => say d "wait"
+    | ["wait", ms, "ok"] =>
+      -- logical time passes; the attribution so far as the time model sees it: remote ↦ session (ids from 1)
+      let us := d.us.map fun u => UdpSess.step u (.tick ms.toNat!)
+      let attr := match us with
+        | some u => String.intercalate "," (u.attr.map fun (a, i) => s!"{d.remotes.getD a "?"}>{i + 1}")
+        | none => ""
+      say { d with us } s!"wait[{attr}]"
     | ["wait", _, "late"] => IO.println "R late"; loop h { d with dead := true }
     | ["backlog", _] =>
       -- the read path does not depend on the write side: only the registration changes (and with it, in the code, the
